@@ -15,7 +15,7 @@ ENV = dict(os.environ, GOFLAGS="-mod=mod", GOPROXY="off", GOSUMDB="off", GOTOOLC
 SEEDED = "/verif/seeded"
 
 
-def sh(cmd, cwd=None, timeout=3600):
+def sh(cmd, cwd=None, timeout=3 * 3600):
     p = subprocess.run(cmd, shell=True, cwd=cwd, env=ENV, stdout=subprocess.PIPE, stderr=subprocess.STDOUT, text=True, timeout=timeout)
     return p.returncode, p.stdout
 
@@ -94,7 +94,7 @@ def main():
         old = json.load(open(meta_path)) if os.path.exists(meta_path) else {}
         v = verify(sid)
         runs = [check(sid, prop, "quick")]
-        if runs[0]["verdict"] != "caught":
+        if runs[0]["verdict"] != "caught" and os.environ.get("THOROUGH") == "1":
             runs.append(check(sid, prop, "thorough"))
         rc, head = sh("git -C /repo rev-parse --short HEAD")
         meta = {
